@@ -49,6 +49,29 @@ var solvers = map[string]solverSpec{
 	}},
 }
 
+func init() {
+	mk := func(name string, extra ...string) {
+		solvers[name] = solverSpec{name, func(f string, s int) []string {
+			a := []string{"z3-new", fmt.Sprintf("-T:%d", s)}
+			a = append(a, extra...)
+			return append(a, f)
+		}}
+	}
+	for i := 1; i <= 12; i++ {
+		seed := fmt.Sprintf("smt.random_seed=%d", i*7+1)
+		switch i % 4 {
+		case 0:
+			mk(fmt.Sprintf("z3-new/p%d", i), seed)
+		case 1:
+			mk(fmt.Sprintf("z3-new/p%d", i), seed, "smt.mbqi=false")
+		case 2:
+			mk(fmt.Sprintf("z3-new/p%d", i), seed, "smt.mbqi=false", "smt.arith.solver=6")
+		case 3:
+			mk(fmt.Sprintf("z3-new/p%d", i), seed, "smt.qi.eager_threshold=5", "smt.mbqi=false")
+		}
+	}
+}
+
 // raceSolvers runs several solver configurations concurrently and returns the first decisive answer.
 func raceSolvers(names []string, file string, secs int) (string, string, string, float64) {
 	type r struct {
@@ -216,11 +239,19 @@ func decide(cfg solveCfg, v *Verdict) {
 		record(a, "z3-new", el, t)
 		if a != "unsat" && a != "sat" && !expectSat {
 			// race several configurations; any unsat is a proof
-			a2, s2, t2, el2 := raceSolvers([]string{"z3-new/s1", "z3-new/s2", "z3-new/nombqi", "z3", "cvc5"}, v.File, cfg.slowT)
+			stage2 := []string{"z3-new/p1", "z3-new/p2", "z3-new/p3", "z3-new/p4", "z3-new/p5", "z3", "cvc5"}
+			a2, s2, t2, el2 := raceSolvers(stage2, v.File, 10)
 			if a2 == "unsat" || a2 == "sat" {
 				record(a2, s2, el2, t2)
 			} else {
 				v.Secs += el2
+				stage3 := []string{"z3-new/p6", "z3-new/p7", "z3-new/p8", "z3-new/p9", "z3-new/p10", "z3-new/p11", "z3-new/p12", "z3-new/s1"}
+				a3, s3, t3, el3 := raceSolvers(stage3, v.File, cfg.slowT)
+				if a3 == "unsat" || a3 == "sat" {
+					record(a3, s3, el3, t3)
+				} else {
+					v.Secs += el3
+				}
 			}
 		}
 	}
